@@ -4141,8 +4141,7 @@ xpath_deref(struct lyxp_set **args, uint32_t UNUSED(arg_count), struct lyxp_set 
                 for (i = 0; i < targets->count; ++i) {
                     set_insert_node(set, targets->dnodes[i], 0, LYXP_NODE_ELEM, 0);
                 }
-            } else {
-                assert(sleaf->type->basetype == LY_TYPE_INST);
+            } else if (sleaf->type->basetype == LY_TYPE_INST) {
                 if (ly_path_eval(leaf->value.target, set->tree, NULL, &node)) {
                     LOGERR(set->ctx, LY_EINVAL, "Invalid instance-identifier \"%s\" value - required instance not found.",
                             lyd_get_value(&leaf->node));
